@@ -342,8 +342,9 @@ Definition smtp_line (stt t : N) : N * list reply :=
 
 (* per connection: dialogue state and what the BDAT chunk buffer (Message.Buffer) of the mail
    in progress holds: None = empty, Some (subject, body bytes) = header block of mail [subject]
-   and that many body bytes.  The buffer is replaced by a fresh one after every completed mail
-   and on RSET; MAIL FROM, a failed command or leaving the mail state do not touch it.
+   and that many body bytes.  The buffer is replaced by a fresh one after every completed mail,
+   on RSET and when MAIL FROM starts a transaction (/repo a828b58); a failed command or leaving
+   the mail state do not touch it.
    BDAT tokens (chunk sizes fixed: header chunk 22 bytes incl. 4 body bytes, body chunk 4):
    10 "BDAT 22"+header chunk of mail a, 11 "BDAT 4"+body chunk (only generated with a buffered
    header), 12 "BDAT 22 LAST"+header chunk of mail a, 13 "BDAT 4 LAST"+body chunk (only
@@ -375,7 +376,7 @@ Definition smtp_lstep (c : smtp_conn) (x : input) : smtp_conn * list reply * lis
         | _, _ => (c, [], [])                    (* not generated: body chunk without a header *)
         end
       else let '(stt', rs) := smtp_line stt t in
-           ((stt', if (t =? 7) && negb (stt =? 1) then None else pend), rs, [mkEv 1 t])
+           ((stt', if ((t =? 7) && negb (stt =? 1)) || ((t =? 2) && (stt =? 2)) then None else pend), rs, [mkEv 1 t])
   end.
 
 (* ===================================================================================== *)
@@ -407,6 +408,23 @@ Definition ldap_lstep (c : N * bool) (x : input) : (N * bool) * list reply * lis
         let login' := if t =? 1 then true else if t =? 3 then false else login in
         ((ph, login'), match ldap_reply t a login' with Some r => [r] | None => [] end, [mkEv (ldap_evtype t) a])
   end.
+
+(* ===================================================================================== *)
+(* the server: which port entry serves a connection (server/honeytrap.go: findService walks *)
+(* hc.ports and keeps the entry whose address compareAddr matches the connection's local   *)
+(* address: same protocol, same port, and the same IP unless the entry has none)            *)
+(* ===================================================================================== *)
+Record pentry := mkPE { pe_udp : bool; pe_ip : N (* 0 = any *); pe_port : N; pe_svc : N }.
+Record dest := mkDest { d_udp : bool; d_ip : N; d_port : N }.
+Definition pe_match (d : dest) (e : pentry) : bool :=
+  Bool.eqb (pe_udp e) (d_udp d) && (pe_port e =? d_port d) && ((pe_ip e =? 0) || (pe_ip e =? d_ip d)).
+(* hc.ports is a Go map: when several entries match, the one visited last wins - any of them.
+   The model takes the first in list order; route_spec shows the order is immaterial when all
+   matching entries name one service (the configurations generated are of that kind). *)
+Definition route (cfg : list pentry) (d : dest) : option N :=
+  match filter (pe_match d) cfg with [] => None | e :: _ => Some (pe_svc e) end.
+(* the server keeps nothing between connections: the services that handle a sequence of them *)
+Definition srv_run (cfg : list pentry) (ds : list dest) : list (option N) := map (route cfg) ds.
 
 (* ---------- the machines behind one interface ---------- *)
 Definition SVC_LDAP := 1.
